@@ -40,6 +40,31 @@ let rec canon (n : node) : node =
   | NSet (i, els) -> NSet (zero_info i, List.map canon els)
 let doc_out n = sexp_of_node (canon n)
 
+(* C10: the output form keeps object identity where the property observes it --
+   nodes carrying an anchor are numbered by first occurrence (key before value,
+   across all documents of one answer); every other node is i0 *)
+let canon_an_list (ns : node list) : node list =
+  let tbl = Hashtbl.create 16 in
+  let next = ref 0 in
+  let inf (i : info) : info =
+    match i.anchor with
+    | None -> zero_info i
+    | Some _ ->
+      let k = int_of_n i.oid in
+      let m = (match Hashtbl.find_opt tbl k with
+               | Some m -> m
+               | None -> incr next; Hashtbl.add tbl k !next; !next) in
+      { oid = n_of_int m; anchor = i.anchor; has_anchor_attr = false; tag = i.tag } in
+  let rec go (n : node) : node =
+    match n with
+    | NLeaf (i, v) -> NLeaf (inf i, v)
+    | NMap (i, kvs) ->
+      let i' = inf i in
+      NMap (i', List.map (fun (k, v) -> let k' = go k in let v' = go v in (k', v')) kvs)
+    | NSeq (i, els) -> let i' = inf i in NSeq (i', List.map go els)
+    | NSet (i, els) -> let i' = inf i in NSet (i', List.map go els) in
+  List.map go ns
+
 (* NameError is carried as PyCrash NotImplemented (MergeConfig.name_error) *)
 let m_exn_sexp (e : exn) : t =
   match e with
@@ -83,8 +108,30 @@ let handle (cmd : string) (args : t list) : t option =
        else Some (L [A "failed"; A ("i" ^ string_of_int st)])
      | Raise e -> Some (L [A "raise"; m_exn_sexp e])
      | OutOfFuel -> Some (L [A "outoffuel"]))
+  | "mergedocs", [mode; c; lt; L ls; rs] ->
+    (* rs = none (stream not loadable) | (docs <node>...) *)
+    let rs' = (match rs with A "none" -> None | L (A "docs" :: ds) -> Some (List.map node_of_sexp ds)
+                             | x -> failwith ("bad stream " ^ to_string x)) in
+    (match merge_docs_run (lit_of lt) (cfg_of c) (opt_str_of_sexp mode) (List.map node_of_sexp ls) rs' with
+     | Ok (docs, st) ->
+       let st = int_of_nat st in
+       if st = 0 then Some (L [A "ok"; L (List.map doc_out docs)])
+       else if st >= 11 && st <= 14 then Some (L [A "failed"; A "condense"])
+       else Some (L [A "failed"; A ("i" ^ string_of_int st)])
+     | Raise e -> Some (L [A "raise"; m_exn_sexp e])
+     | OutOfFuel -> Some (L [A "outoffuel"]))
   | "mergeat", [c; lt; root; L targets; d; r] ->
     let locs = List.map (function L refs -> List.map ref_of_sexp refs | x -> failwith ("bad loc " ^ to_string x)) targets in
     Some (m_outcome doc_out (merge_at (lit_of lt) (cfg_of c) (bool_of_sym root) locs (node_of_sexp d) (node_of_sexp r)))
+  | "anchors", [c; lt; l; r] ->
+    Some (m_outcome (fun n -> List.hd (List.map sexp_of_node (canon_an_list [n])))
+            (merge_with_anchors (cfg_of c) (lit_of lt) (node_of_sexp l) (node_of_sexp r)))
+  | "resolve", [c; l; r] ->
+    Some (m_outcome (fun (a, b) -> L (List.map sexp_of_node (canon_an_list [a; b])))
+            (resolve_conflicts (cfg_of c) (node_of_sexp l) (node_of_sexp r)))
+  | "scan-anchors", [d] ->
+    Some (L (List.map (fun (k, _) -> s k) (scan_anchors (node_of_sexp d) [])))
+  | "unique-anchor", [a; L known] ->
+    Some (m_outcome s (calc_unique_anchor (str_atom a) (List.map str_atom known)))
   | "node-eq", [a; b] -> Some (bs (node_eq (node_of_sexp a) (node_of_sexp b)))
   | _ -> None
